@@ -35,7 +35,7 @@ func init() {
 		Rule:           "runs = 10-40 server-authorization posts (new, duplicate with changed ports or location, ban, un-ban attempt, bad / foreign signature, before registration) to 1-3 mutually forwarding servers with peers up or down, each server's list compared with its model after every post; then 6-20 client sync rounds against real servers (lists, GCA-signed migration orders) and a rogue server (orders for another device, outer signature by a foreign or the new GCA, inner signatures by the old GCA, replays of non-banned entries, valid relayed orders) with client restarts; after every round the client's GCA, id and server map are compared with the model of the signature rules, the three files must decode to exactly the adopted state and a restart must resume with it; non-trivial = at least one ban was learned and one migration order (valid or forged) was presented; distinct = distinct decision signatures",
 		Real:           []string{"AuthorizedServersHandler GET/POST incl. forwarding to peers", "EquipmentMigrateHandler", "sync handler", "client sync round: parser, merge, migration adoption, persistence; client start-up load"},
 		Stub:           []string{"rogue server (harness, holding a configured server's key)", "TCP/HTTP (simulated fabric)"},
-		RequiredProbes: []string{"c17.srv.ban", "c17.srv.unban-attempt", "c17.srv.changed-ports", "c17.srv.forwarded", "c17.cli.ban-learned", "c17.cli.migration-adopted", "c17.cli.forged-order", "c17.cli.restart", "c17.cli.unban-replay", "c17.cli.forged-dup-entry", "c17.srv.altered-after-signing", "c17.cli.order-without-usable-server"},
+		RequiredProbes: []string{"c17.srv.ban", "c17.srv.unban-attempt", "c17.srv.changed-ports", "c17.srv.forwarded", "c17.cli.ban-learned", "c17.cli.migration-adopted", "c17.cli.forged-order", "c17.cli.restart", "c17.cli.unban-replay", "c17.cli.forged-dup-entry", "c17.srv.altered-after-signing", "c17.cli.order-without-usable-server", "c17.cli.key-only-ban"},
 		RequiredSites:  []string{"srvauth.between", "csync.premerge", "csync.postmerge"},
 	})
 }
@@ -300,8 +300,18 @@ func runC17(m *Sim) {
 		case 1:
 			if model.gca == gca.Pub {
 				victim := clientServers[m.C.Int("victim", len(clientServers))]
+				// A ban names a key; the GCA may repeat the address, leave it
+				// out altogether, or write another one.
+				ban := server.AuthorizedServer{PublicKey: victim.Key.Pub, Banned: true, Location: victim.Loc, HttpPort: victim.HTTP, TcpPort: victim.TCP, UdpPort: victim.UDP}
+				switch m.C.Weighted("ban-form", 3, 2, 1) {
+				case 1:
+					ban.Location, ban.HttpPort, ban.TcpPort, ban.UdpPort = "", 0, 0, 0
+					m.Probe("c17.cli.key-only-ban")
+				case 2:
+					ban.Location, ban.TcpPort = "elsewhere.sim", 1
+				}
 				for _, n := range nodes {
-					n.DoAuthorizeServer(SignServer(gca, server.AuthorizedServer{PublicKey: victim.Key.Pub, Banned: true, Location: victim.Loc, HttpPort: victim.HTTP, TcpPort: victim.TCP, UdpPort: victim.UDP}))
+					n.DoAuthorizeServer(SignServer(gca, ban))
 				}
 			}
 		case 2:
